@@ -86,6 +86,10 @@ pub fn worker_main() {
                 Some(text) => load_one(&text),
                 None => "bad-op".to_string(),
             },
+            ["loadtyped", tag, h] => match hex_decode(h) {
+                Some(text) => load_typed(tag, &text),
+                None => "bad-op".to_string(),
+            },
             _ => "bad-op".to_string(),
         };
         let mut o = stdout.lock();
@@ -179,6 +183,41 @@ fn load_one(text: &str) -> String {
     }
 }
 
+/// the per-type entry points (`JSON::from_json` of the type, `serde_json::from_str` for the number types): the
+/// loaded object is re-serialised and wrapped in its tag so that `shape` reads it like a tagged result
+fn load_typed(tag: &str, text: &str) -> String {
+    let r = catch_unwind(AssertUnwindSafe(|| -> Result<String, ()> {
+        let body = match tag {
+            "NamedCal" => NamedCal::from_json(text).map_err(|_| ())?.to_json().map_err(|_| ())?,
+            "Cal" => Cal::from_json(text).map_err(|_| ())?.to_json().map_err(|_| ())?,
+            "UnionCal" => UnionCal::from_json(text).map_err(|_| ())?.to_json().map_err(|_| ())?,
+            "FXRates" => FXRates::from_json(text).map_err(|_| ())?.to_json().map_err(|_| ())?,
+            "Dual" => serde_json::to_string(&serde_json::from_str::<Dual>(text).map_err(|_| ())?).map_err(|_| ())?,
+            "Dual2" => serde_json::to_string(&serde_json::from_str::<Dual2>(text).map_err(|_| ())?).map_err(|_| ())?,
+            _ => return Err(()),
+        };
+        Ok(format!("{{\"{}\":{}}}", tag, body))
+    }));
+    match r {
+        Ok(Ok(re)) => format!("ok {} {}", tag, shape(tag, &re)).trim_end().to_string(),
+        Ok(Err(_)) => "err".to_string(),
+        Err(_) => "panic".to_string(),
+    }
+}
+
+const TYPED: [&str; 6] = ["Dual", "Dual2", "Cal", "UnionCal", "NamedCal", "FXRates"];
+
+/// one document through the tagged entry point and, when it is `{"<Type>": body}` for a type with its own
+/// entry point, the body through that entry point as well
+fn emit_load<W: Write>(out: &mut W, d: &J) {
+    writeln!(out, "loadjson {}", hex_encode(&d.text())).unwrap();
+    if let J::Obj(kvs) = d {
+        if kvs.len() == 1 && TYPED.contains(&kvs[0].0.as_str()) {
+            writeln!(out, "loadtyped {} {}", kvs[0].0, hex_encode(&kvs[0].1.text())).unwrap();
+        }
+    }
+}
+
 /* ---------- constructor ops ---------- */
 
 fn guarded<F: FnOnce() -> String>(f: F) -> String {
@@ -233,6 +272,15 @@ pub fn step(t: &[&str]) -> Option<String> {
                     d.dual2().ncols()
                 ),
                 Err(_) => "err".to_string(),
+            })
+        }
+        ["written", h] => {
+            // a document written by the library's own `to_json`: the tagged loader must accept it
+            let s = hex_decode(h)?;
+            let tag = s.split('"').nth(1).unwrap_or("?").to_string();
+            guarded(|| match from_json_tagged(&s) {
+                Ok((kind, _)) => format!("written {} ok", kind),
+                Err(_) => format!("written {} rejected", tag),
             })
         }
         ["ccy", h] => {
@@ -481,7 +529,7 @@ fn sweep<W: Write>(out: &mut W, doc: &J) {
         for l in &leaves {
             let mut d = doc.clone();
             *d.at(pos) = l.clone();
-            writeln!(out, "loadjson {}", hex_encode(&d.text())).unwrap();
+            emit_load(out, &d);
         }
         let mut variants: Vec<J> = Vec::new();
         {
@@ -542,7 +590,7 @@ fn sweep<W: Write>(out: &mut W, doc: &J) {
         for v in variants {
             let mut d = doc.clone();
             *d.at(pos) = v;
-            writeln!(out, "loadjson {}", hex_encode(&d.text())).unwrap();
+            emit_load(out, &d);
         }
     }
 }
@@ -561,6 +609,85 @@ fn tagged(tag: &str, body: String) -> J {
 
 fn small(r: &mut Rng) -> f64 {
     r.dyadic()
+}
+
+/// `n` documents exactly as `to_json` writes them (raw text, written key order): first- and second-order numbers
+/// with 0..4 names and arbitrary finite doubles, float-noded curves with a named calendar, node dates from 1960 on
+pub fn emit_written<W: Write>(out: &mut W, r: &mut Rng, n: usize) {
+    let names = ["x", "y", "z", "fx_eurusd"];
+    for i in 0..n {
+        let k = r.range(0, 4) as usize;
+        let mut nm: Vec<&str> = names.to_vec();
+        r.shuffle(&mut nm);
+        nm.truncate(k);
+        let v: Vec<String> = nm.iter().map(|s| s.to_string()).collect();
+        let text = match i % 5 {
+            0 => {
+                let d: Vec<f64> = v.iter().map(|_| crate::ser::any_finite(r)).collect();
+                let x = Dual::try_new(crate::ser::any_finite(r), v, d).unwrap();
+                format!("{{\"Dual\":{}}}", serde_json::to_string(&x).unwrap())
+            }
+            1 => {
+                let d: Vec<f64> = v.iter().map(|_| crate::ser::any_finite(r)).collect();
+                let h: Vec<f64> = (0..v.len() * v.len()).map(|_| crate::ser::any_finite(r)).collect();
+                let x = Dual2::try_new(crate::ser::any_finite(r), v, d, h).unwrap();
+                format!("{{\"Dual2\":{}}}", serde_json::to_string(&x).unwrap())
+            }
+            3 => {
+                // a float spline, solved or not: order 1..4, repeated end knots, 0..3 interior knots
+                let k = r.range(1, 4) as usize;
+                let mut t = vec![crate::ser::any_finite(r).abs().min(1e300) * -1.0; k];
+                let mut x = t[0];
+                for _ in 0..r.range(0, 3) {
+                    x += r.logu(1e-3, 1e3);
+                    t.push(x);
+                }
+                x += r.logu(1e-3, 1e3);
+                for _ in 0..k {
+                    t.push(x);
+                }
+                let n = t.len() - k;
+                let c = if r.chance(1, 2) { Some((0..n).map(|_| crate::ser::any_finite(r)).collect::<Vec<f64>>()) } else { None };
+                format!("{{\"PPSplineF64\":{}}}", serde_json::to_string(&Inner { inner: PPSpline::<f64>::new(k, t, c) }).unwrap())
+            }
+            4 => {
+                // an FX market of 2..5 currencies with float quotes, dated or not
+                let ccys = ["usd", "eur", "gbp", "jpy", "sek"];
+                let m = r.range(2, 5) as usize;
+                let settle = if r.chance(1, 2) { None } else { Some(crate::dates::day(r.range(0, 30000))) };
+                let mut qs = Vec::new();
+                for j in 1..m {
+                    let p = r.below(j as u64) as usize;
+                    let (a, b) = if r.chance(1, 2) { (ccys[p], ccys[j]) } else { (ccys[j], ccys[p]) };
+                    qs.push(FXRate::try_new(a, b, Number::F64(r.logu(1e-4, 1e4)), settle).unwrap());
+                }
+                let base = Ccy::try_new(ccys[r.below(m as u64) as usize]).unwrap();
+                let f = FXRates::try_new(qs, Some(base)).unwrap();
+                format!("{{\"FXRates\":{}}}", f.to_json().unwrap())
+            }
+            _ => {
+                let mut map = indexmap::IndexMap::new();
+                let mut d = if r.chance(1, 2) { r.range(-3650, 11600) } else { r.range(10000, 20000) };
+                for _ in 0..r.range(1, 6) {
+                    map.insert(crate::dates::day(d), Number::F64(r.logu(1e-3, 1e3)));
+                    d += r.range(1, 4000);
+                }
+                let interp = *r.pick(&["linear", "log_linear", "linear_zero_rate", "flat_forward", "flat_backward"]);
+                let base = if r.chance(1, 2) { None } else { Some(crate::ser::any_finite(r)) };
+                let conv = *r.pick(&[
+                    Convention::One, Convention::OnePlus, Convention::Act365F, Convention::Act365FPlus, Convention::Act360,
+                    Convention::ThirtyE360, Convention::Thirty360, Convention::Thirty360ISDA, Convention::ActActISDA,
+                    Convention::ActActICMA, Convention::Bus252,
+                ]);
+                let modi = *r.pick(&[Modifier::Act, Modifier::F, Modifier::ModF, Modifier::P, Modifier::ModP]);
+                let cal = CalType::NamedCal(NamedCal::try_new(*r.pick(&["tgt", "nyc", "ldn,tgt|fed", "all"])).unwrap());
+                let id = (*r.pick(&["c", "curve_A", "x1_", ""])).to_string();
+                let c = CurveHandle::new(map, interp, ADOrder::Zero, id, conv, modi, cal, base).unwrap();
+                c.to_json().unwrap()
+            }
+        };
+        writeln!(out, "written {}", hexs(&text)).unwrap();
+    }
 }
 
 fn valid_doc(r: &mut Rng) -> J {
@@ -710,6 +837,21 @@ pub fn gen_c20<W: Write>(out: &mut W, thorough: bool, seed: u64) {
     let rounds = if thorough { 400 } else { 12 };
     let mods = ["Act", "F", "ModF", "P", "ModP"];
 
+    /* once per run: every code point of the two ranges whose lower-casing the model covers (U+0000-U+00FF,
+       U+0400-U+045F) in a three-byte currency code, alone and in a pair with its own lower-cased spelling */
+    for cp in (0u32..0x100).chain(0x400..0x460) {
+        let c = char::from_u32(cp).unwrap();
+        let low: String = c.to_lowercase().collect();
+        let (up, dn) = if c.len_utf8() == 1 { (format!("x{}Y", c), format!("X{}y", low)) } else { (format!("{}Z", c), format!("{}z", low)) };
+        writeln!(out, "ccy {}", hexs(&up)).unwrap();
+        writeln!(out, "fxpair {} {}", hexs(&up), hexs(&dn)).unwrap();
+        writeln!(out, "fxpair {} {}", hexs(&up), hexs("usd")).unwrap();
+        if c.len_utf8() == 2 {
+            writeln!(out, "ccy {}", hexs(&format!("q{}", c))).unwrap();
+            writeln!(out, "fxpair {} {}", hexs(&format!("q{}", low)), hexs(&format!("Q{}", c))).unwrap();
+        }
+    }
+
     /* once per run: EVERY target month 1970-02..2200-11 with the roll days that can exceed a month's
        length, from a start date a random number of months away (exhaustive over target months) */
     writeln!(out, "cal 1 0000011 0").unwrap();
@@ -843,7 +985,9 @@ pub fn gen_c20<W: Write>(out: &mut W, thorough: bool, seed: u64) {
             )
             .unwrap();
         }
-        let cstr = ["usd", "USD", "Eur", "eu", "", "euro", "€", "é1", "gbp", "JPY", "u d", "12a"];
+        let cstr = [
+            "usd", "USD", "Eur", "eu", "", "euro", "€", "é1", "É1", "gbp", "JPY", "u d", "12a", "Äb", "äb", "ÄB", "Дa", "дA", "×a", "ß1",
+        ];
         for _ in 0..10 {
             writeln!(out, "ccy {}", hexs(*r.pick(&cstr))).unwrap();
             writeln!(out, "fxpair {} {}", hexs(*r.pick(&cstr)), hexs(*r.pick(&cstr))).unwrap();
@@ -956,6 +1100,9 @@ pub fn gen_c20<W: Write>(out: &mut W, thorough: bool, seed: u64) {
             }
         }
 
+        /* documents as written by to_json are of the model writer's form and load */
+        emit_written(out, &mut r, 10);
+
         /* loading from JSON text */
         for _ in 0..(if thorough { 160 } else { 320 }) {
             let mut doc = valid_doc(&mut r);
@@ -968,7 +1115,7 @@ pub fn gen_c20<W: Write>(out: &mut W, thorough: bool, seed: u64) {
             for _ in 0..nm {
                 mutate(&mut doc, &mut r);
             }
-            writeln!(out, "loadjson {}", hexs(&doc.text())).unwrap();
+            emit_load(out, &doc);
         }
         // texts that are not JSON at all
         for s in ["", "{", "[1,2", "{\"Dual\":}", "nul", "{\"Dual\":{\"real\":1.0,}}", "{\"NamedCal\":{\"name\":\"tgt\"}} x"] {
